@@ -1,5 +1,6 @@
 import Norad.Base.Proto
 import Norad.Spec.FontInfo
+import Norad.Model.FontInfoUp
 /-! Driver module for C13: `C13 <key=value ..> => v=<..> s=<..> l=<..>` (see harness/src/c13.rs) -/
 namespace Driver.C13
 open Proto _root_.C13 FI
@@ -103,7 +104,31 @@ def run (inp obs : List String) : Verdict :=
       | none => "na"
     let mL := if !identsOK then "parse" else match loadInfo raw with
       | .loaded _ => "loaded" | .parseErr => "rejected" | .invalid _ => "rejected" | .panic => "panic"
-    let modelOut := s!"v={mV} s={mS} l={mL}"
+    -- the upconversion paths (C14 model): the same attributes in a format-2 file, the lists as robofab hint data
+    let onlyV2 := raw.gasp.isNone && raw.guidelines.isNone && raw.woffExtensions.isNone && raw.woffCredits.isNone &&
+      raw.woffCopyright.isNone && raw.woffDescription.isNone && raw.woffTrademark.isNone && raw.woffLicense.isNone &&
+      raw.panose.isNone && raw.widthClass.isNone && raw.winCharSet.isNone && raw.styleMap.isNone
+    let onlyLists := onlyV2 && raw.created.isNone && raw.selection.isNone && raw.familyClass.isNone
+    let zeros (n : Nat) : List Nat := List.replicate n 0
+    let listAttrs : List (String × Option Nat) :=
+      [("postscriptBlueValues", raw.blueValues), ("postscriptOtherBlues", raw.otherBlues),
+       ("postscriptFamilyBlues", raw.familyBlues), ("postscriptFamilyOtherBlues", raw.familyOtherBlues),
+       ("postscriptStemSnapH", raw.stemSnapH), ("postscriptStemSnapV", raw.stemSnapV)]
+    let v2Attrs : List (String × _root_.C14.Val) :=
+      (match raw.created with | some d => [("openTypeHeadCreated", _root_.C14.Val.str (String.ofList d))] | none => []) ++
+      (match raw.selection with | some l => [("openTypeOS2Selection", _root_.C14.Val.ints l)] | none => []) ++
+      (match raw.familyClass with | some l => [("openTypeOS2FamilyClass", _root_.C14.Val.ints l)] | none => []) ++
+      listAttrs.filterMap fun (k, n) => n.map fun n => (k, _root_.C14.Val.nums (zeros n))
+    let mU2 := if !onlyV2 then "na" else match _root_.C14.fromFile 2 v2Attrs with
+      | .ok _ => "loaded" | .error _ => "rejected"
+    let hintNames := ["blueValues", "otherBlues", "familyBlues", "familyOtherBlues", "hStems", "vStems"]
+    let hint : List (String × _root_.C14.Val) :=
+      ((hintNames.zip (listAttrs.map (·.2))).zipIdx).filterMap fun ((k, n), idx) =>
+        n.map fun n => (k, if idx < 4 then _root_.C14.Val.numss [zeros n] else _root_.C14.Val.nums (zeros n))
+    let mU1 := if !onlyLists then "na" else
+      match _root_.C14.load { fmt := 1, attrs := [], hasLib := true, robofab := { hint := some hint } } with
+      | .ok _ => "loaded" | .error _ => "rejected"
+    let modelOut := s!"v={mV} s={mS} l={mL} u2={mU2} u1={mU1}"
     -- implementation, at the compared abstraction
     let oV := obsField obs "v"
     let oS := obsField obs "s"
@@ -114,7 +139,11 @@ def run (inp obs : List String) : Verdict :=
       | "parse" => if identsOK then "rejected" else "parse"
       | "invalid" => "rejected"
       | x => x
-    let implOut := s!"v={iV} s={iS} l={iL}"
+    let legacyClass (s : String) : String := match headOf s with
+      | "parse" => "rejected" | "invalid" => "rejected" | x => x
+    let iU2 := legacyClass (obsField obs "u2")
+    let iU1 := legacyClass (obsField obs "u1")
+    let implOut := s!"v={iV} s={iS} l={iL} u2={iU2} u1={iU1}"
     -- specification oracle on the implementation's own verdicts
     let viol : List String := match info? with | some i => violated i | none => []
     let feats := ",".intercalate viol
@@ -132,11 +161,33 @@ def run (inp obs : List String) : Verdict :=
       (if iL = "loaded" && (info?.isNone || !rulesHold || !identsOK) then ["load-accepts-violation:" ++ feats] else []) ++
       (if oL = "loaded:diff" then ["loaded-value-differs"] else []) ++
       (if iL = "rejected" && info?.isSome && rulesHold && identsOK then ["load-rejects-conforming"] else []) ++
-      (if iL = "other" || iS = "other" then ["unexpected-error-class"] else [])
-    -- tags
+      (if iU2 = "panic" || iU1 = "panic" then ["legacy-load-panics"] else []) ++
+      (if iU2 = "loaded" && (info?.isNone || !rulesHold) then ["format2-load-accepts-violation:" ++ feats] else []) ++
+      (if iU1 = "loaded" && (info?.isNone || !rulesHold) then ["format1-hint-load-accepts-violation:" ++ feats] else []) ++
+      (if iU2 = "rejected" && info?.isSome && rulesHold then ["format2-load-rejects-conforming"] else []) ++
+      (if iU1 = "rejected" && info?.isSome && rulesHold then ["format1-hint-load-rejects-conforming"] else []) ++
+      (if iL = "other" || iS = "other" || iU2 = "other" || iU1 = "other" then ["unexpected-error-class"] else [])
+    -- a refusal may name any rule that is violated, not one that holds (`validate_error_kind`)
     let kindOf (s : String) : String := ((s.splitOn ":").getD 1 "")
+    let rulesOfKind (k : String) : List String := match k with
+      | "InvalidOpenTypeHeadCreatedDate" => ["date"]
+      | "UnsortedGaspEntries" => ["gasp"]
+      | "DuplicateGuidelineIdentifiers" => ["ids"]
+      | "InvalidGuidelineAngle" => ["angle"]
+      | "DisallowedSelectionBits" => ["selection"]
+      | "InvalidOs2FamilyClass" => ["class"]
+      | "InvalidPostscriptListLength" => ["blueValues", "otherBlues", "familyBlues", "familyOtherBlues", "stemH", "stemV"]
+      | "PostscriptListMustBePairs" => ["blueValues", "otherBlues", "familyBlues", "familyOtherBlues"]
+      | "EmptyWoffAttribute" => ["woffExt", "woffCredits", "woffCopyright", "woffDescription", "woffTrademark"]
+      | _ => []
+    let kindBad (o : String) : Bool :=
+      (o.startsWith "err:" || o.startsWith "refused:" || o.startsWith "invalid:") && !rulesHold &&
+        !(rulesOfKind (kindOf o)).any viol.contains
+    let spec := spec ++
+      (if info?.isSome && (kindBad oV || kindBad oS || kindBad oL) then ["refusal-names-a-rule-that-holds"] else [])
+    -- tags
     let tags :=
-      [if rulesHold then "conforming" else "violating", "v-" ++ iV, "s-" ++ iS, "l-" ++ iL] ++
+      [if rulesHold then "conforming" else "violating", "v-" ++ iV, "s-" ++ iS, "l-" ++ iL, "u2-" ++ iU2, "u1-" ++ iU1] ++
       viol.map ("viol-" ++ ·) ++
       (if info?.isNone then ["ill-typed"] else []) ++
       (if iV = "err" then ["kind-" ++ kindOf oV] else []) ++
